@@ -388,3 +388,46 @@ def error_accounting(ctx):
                         'providers that are merely skipped use up max_errors: the query aborts although a healthy provider is next in line')
     lim = [n for n in ast.walk(fn) if isinstance(n, ast.Compare) and 'len(self.errors)' in norm(n) and 'self.max_errors' in norm(n)]
     ctx.require(bool(lim), q, 'the error limit is no longer compared with len(self.errors)', fn)
+
+
+@PROP.obligation('C20.block-page-complete', canaries=[
+    mut.replace_expr('services.services', 'Service.getblock', '(page - 1) * limit - block.tx_count + len(block.transactions)', 'page * limit - block.tx_count + len(block.transactions)', 'partially cached last page served as complete'),
+    mut.replace_expr('services.services', 'Service.getblock', 'len(block.transactions) < limit', 'len(block.transactions) < limit - 1', 'inner page with one transaction missing served from cache'),
+])
+def block_page_complete(ctx):
+    """Service.getblock serves a page of a block from the cache only when the cache holds the whole page. The decision expression (with
+    is_last_page as the code defines it) is evaluated for every combination of tx_count 0..12, limit 1..6, page 1..4 and every number of
+    cached transactions below the number the page must hold, min(limit, tx_count - (page-1)*limit): the providers must be asked in
+    every such case. (Only comparisons and small integer arithmetic are involved, so the grid covers all orderings.)"""
+    q = 'services.services:Service.getblock'
+    fn = ctx.repo.func(q)
+    last = [n for n in ast.walk(fn) if isinstance(n, ast.Assign) and norm(n.targets[0]) == 'is_last_page' and not isinstance(n.value, ast.Constant)]
+    dec = [n for n in ast.walk(fn) if isinstance(n, ast.If) and 'is_last_page' in norm(n.test) and any(isinstance(c, ast.Call) and norm(c.func) == 'self._provider_execute' for c in ast.walk(n))]
+    if len(last) != 1 or len(dec) != 1:
+        ctx.undecided('getblock: page-completeness decision not found')
+    B = ('var', 'block')
+    it = Interp(ctx.repo, 'services.services', self_cls='services.services:Service', decide=lambda t: True if t == B else None)
+    n = bad = 0
+    first = None
+    for tx_count in range(0, 13):
+        for limit in range(1, 7):
+            for page in range(1, 5):
+                expected = min(limit, max(tx_count - (page - 1) * limit, 0))
+                for cached in range(0, expected):
+                    st = State(env={'self': S(('var', 'self')), 'block': S(B), 'page': page, 'limit': limit, 'parse_transactions': True})
+                    st.heap[('attr', B, 'tx_count')] = tx_count
+                    st.heap[('attr', B, 'transactions')] = ['t%d' % i for i in range(cached)]
+                    lastv = it.eval(last[0].value, st)
+                    st.env['is_last_page'] = lastv
+                    ask = it.truth(it.eval(dec[0].test, st), st)
+                    if not isinstance(ask, bool):
+                        ctx.undecided('getblock: decision not decidable on concrete counts: %s' % show(term(ask))[:100])
+                    n += 1
+                    if not ask:
+                        bad += 1
+                        first = first or (tx_count, limit, page, cached, expected)
+    ctx.saw('%d incomplete-page situations evaluated, served from cache although incomplete: %d' % (n, bad))
+    ctx.floor(n, 400, 'grid points')
+    if bad:
+        ctx.violate(q, 'a block with %d transactions, limit %d, page %d: %d of the %d transactions of the page are cached and the page is served from the cache' % first, dec[0],
+                    'getblock returns a partial transaction list as if it were the whole page (%d grid points)' % bad)
